@@ -410,6 +410,12 @@ def _fold_members(ctx: Ctx, idx):
         "map": (T("map", key=T("base", name="string"), value=T("base", name="string")), "ImmutableDictionary<string, string>"),
         "string|null": (T("or", items=[T("base", name="string"), null]), "string"),
         "array|null": (T("or", items=[T("array", element=T("base", name="string")), null]), "ImmutableArray<string>"),
+        # a union that merely *contains* a collection is an ordinary reference type
+        "union-with-array": (T("or", items=[T("array", element=T("base", name="string")), T("reference", name="Range")]),
+                             "OrType<ImmutableArray<string>, Range>"),
+        "union-with-map|null": (T("or", items=[T("map", key=T("base", name="string"), value=T("base", name="string")),
+                                               T("base", name="boolean"), null]),
+                                "OrType<ImmutableDictionary<string, string>, bool>"),
     }
     n = 0
     for sname, (ty, tname) in shapes.items():
